@@ -62,6 +62,9 @@ pub struct World {
     pub access_warms: bool,
     /// warm-up by command: the file the warm-up command appends `<tpe>/<id>` lines to; only those are warm
     pub warm_file: Option<std::path::PathBuf>,
+    /// per command: what reached the cold store, in order: (kind, ft, id, served) with kind 0 = warm_up call of
+    /// the store, 1 = read, 2 = one-byte probe read (WarmUpAccessBackend::warm_up), 3 = the store cooled down
+    pub cold_ev: Vec<(u8, u8, Id, bool)>,
 }
 
 impl World {
@@ -81,6 +84,7 @@ impl World {
         }
     }
     pub fn cool_down(&mut self) {
+        self.cold_ev.push((3, 0, Id::default(), true));
         self.warm.clear();
         if let Some(f) = &self.warm_file {
             let _ = std::fs::write(f, b"");
@@ -117,10 +121,12 @@ impl MemBe {
     fn key(&self, w: &World, tpe: FileType, id: &Id) -> (u8, Id) {
         if w.normalise_config_id && tpe == FileType::Config { (0, Id::default()) } else { (ft_num(tpe), *id) }
     }
-    fn check_warm(&self, w: &mut World, k: (u8, Id)) -> RusticResult<()> {
+    fn check_warm(&self, w: &mut World, k: (u8, Id), probe: bool) -> RusticResult<()> {
         if !self.hot {
             let warm = w.is_warm(&k);
             w.cold_reads.push((k.0, k.1, warm));
+            let served = warm || !w.cold_rejects_unwarmed;
+            w.cold_ev.push((if probe { 2 } else { 1 }, k.0, k.1, served));
             if w.cold_rejects_unwarmed && !warm {
                 w.unwarmed_reads.push(k);
                 if w.access_warms {
@@ -145,13 +151,13 @@ impl ReadBackend for MemBe {
     fn read_full(&self, tpe: FileType, id: &Id) -> RusticResult<Bytes> {
         let mut w = self.w.lock().unwrap();
         let k = self.key(&w, tpe, id);
-        self.check_warm(&mut w, k)?;
+        self.check_warm(&mut w, k, false)?;
         w.maps[self.idx()].get(&k).cloned().ok_or_else(|| err("file does not exist"))
     }
     fn read_partial(&self, tpe: FileType, id: &Id, _cacheable: bool, offset: u32, length: u32) -> RusticResult<Bytes> {
         let mut w = self.w.lock().unwrap();
         let k = self.key(&w, tpe, id);
-        self.check_warm(&mut w, k)?;
+        self.check_warm(&mut w, k, offset == 0 && length == 1)?;
         let b = w.maps[self.idx()].get(&k).cloned().ok_or_else(|| err("file does not exist"))?;
         let (o, l) = (offset as usize, length as usize);
         if o + l > b.len() {
@@ -168,6 +174,7 @@ impl ReadBackend for MemBe {
         let k = self.key(&w, tpe, id);
         if !self.hot {
             w.warm_calls.push(k);
+            w.cold_ev.push((0, k.0, k.1, true));
             if !w.access_warms && w.warm_file.is_none() {
                 let _ = w.warm.insert(k);
             }
@@ -297,7 +304,8 @@ fn ops_case(line: &str) -> String {
 //   step: 0 v   backup of source variant v
 //         1 k   forget the k-th live snapshot (mod count)
 //         2 m   prune (m = 0: instant delete, max-unused 0; m = 1: mark only, then delete with keep-delete 0;
-//               m = 2: mark only with the default keep-delete, the marked packs stay)
+//               m = 2: mark only with the default keep-delete, the marked packs stay; m + 3: the same with
+//               repack_cacheable_only(false): data packs are repacked, read from the cold store)
 //         3 c   config change (compression level c)
 //         4     check
 //         5     restore the latest snapshot and compare with its source
@@ -397,7 +405,28 @@ fn res_str<T>(r: &RusticResult<T>) -> String {
     }
 }
 
+/// The cold-store events of the command that just ran (ids numbered), and - warm-up by command - the packs the
+/// command listed in the warm file.
+fn take_cold_ev(e: &Env, ids: &mut IdMap) -> serde_json::Value {
+    let mut w = e.w.lock().unwrap();
+    let ev: Vec<(u8, u8, u64, u8)> = w.cold_ev.drain(..).map(|(k, ft, id, s)| (k, ft, if k == 3 { 0 } else { ids.get(&id) }, s as u8)).collect();
+    let mut listed: Vec<u64> = vec![];
+    if let Some(f) = &w.warm_file {
+        for l in std::fs::read_to_string(f).unwrap_or_default().lines() {
+            if let Some(h) = l.strip_prefix("Pack/") {
+                if let Ok(id) = Id::from_hex(h) {
+                    listed.push(ids.get(&id));
+                }
+            }
+        }
+    }
+    listed.sort();
+    listed.dedup();
+    serde_json::json!({"ev": ev, "listed": listed})
+}
+
 fn do_step(e: &mut Env, tmp: &Path, step: &[u64]) -> String {
+    e.w.lock().unwrap().cold_ev.clear();
     e.w.lock().unwrap().cool_down(); // every command starts with a cold cold store
     let r: RusticResult<String> = (|| {
         match step[0] {
@@ -427,11 +456,18 @@ fn do_step(e: &mut Env, tmp: &Path, step: &[u64]) -> String {
             }
             2 => {
                 let repo = open(e)?;
+                // step[1] = mode + 3 * r; r = 1: data packs are repacked too (on a hot/cold repository prune repacks
+                // only tree packs by default: repack_cacheable_only), so that the repacker reads from the cold store
+                let repack_data = step[1] / 3 == 1;
+                let step = [step[0], step[1] % 3];
                 let instant = step[1] == 0;
                 let mut po = PruneOptions::default()
                     .instant_delete(instant)
                     .max_unused(LimitOption::Percentage(0))
                     .keep_pack(rustic_core::jiff::Span::default());
+                if repack_data {
+                    po = po.repack_cacheable_only(false).max_repack(LimitOption::Unlimited);
+                }
                 if step[1] != 2 {
                     // mode 2 keeps the default keep-delete (23h): unused packs are only MARKED in the index
                     // (section packs_to_delete) and stay in both stores
@@ -613,14 +649,15 @@ fn e2e_case(line: &str) -> String {
         hc.w.lock().unwrap().fail_at = Some(fail_at);
     }
     let mut marks = vec![];
+    let mut ids = IdMap { m: HashMap::new() };
     for s in &steps {
         let a = do_step(&mut hc, tmp.path(), s);
+        let cold = take_cold_ev(&hc, &mut ids);
         let b = do_step(&mut single, tmp.path(), s);
         marks.push(hc.w.lock().unwrap().log.len());
-        step_res.push(serde_json::json!({"step": s, "hc": a, "single": b, "obs_hc": observe(&hc), "obs_single": observe(&single)}));
+        step_res.push(serde_json::json!({"step": s, "hc": a, "single": b, "obs_hc": observe(&hc), "obs_single": observe(&single), "cold": cold}));
     }
     let _ = out.insert("steps".into(), step_res.into());
-    let mut ids = IdMap { m: HashMap::new() };
     let hist_len = hc.w.lock().unwrap().log.len();
     let _ = out.insert("hist_len".into(), hist_len.into());
     let _ = out.insert("marks".into(), marks.into());
@@ -682,6 +719,7 @@ fn e2e_case(line: &str) -> String {
     let _ = out.insert("tp_flags".into(), tp_flags.into());
     let _ = out.insert("state_before_repair".into(), before.into());
     hc.w.lock().unwrap().cool_down();
+    hc.w.lock().unwrap().cold_ev.clear();
     let dmg_len = hc.w.lock().unwrap().log.len();
     let _ = out.insert("dmg_len".into(), dmg_len.into());
     let unw0 = hc.w.lock().unwrap().unwarmed_reads.len();
@@ -736,6 +774,7 @@ fn e2e_case(line: &str) -> String {
         let _ = out.insert("index_read".into(), index_entries.is_some().into());
         let _ = out.insert("tp_index".into(), tp.into());
     }
+    let _ = out.insert("repair_cold".into(), take_cold_ev(&hc, &mut ids));
     let _ = out.insert("unwarmed_reads_repair".into(), (hc.w.lock().unwrap().unwarmed_reads.len() - unw0).into());
     let _ = out.insert("state_after_repair".into(), state_line(&hc.w.lock().unwrap(), &mut ids, false).into());
     {
